@@ -876,6 +876,15 @@ def paths_under (repo, module, g, env, start, stops, cls=None, limit=200, track=
         # values that edge is the raising statement's own edge taken with its pre-state - following it from a statement that cannot raise
         # would enter the handler with the state before *that* statement
         if n.ast is not None and not isinstance(n.ast, (ast.For, ast.With)) and not any(isinstance(x_, _cfg_RAISY) for x_ in ast.walk(n.ast)): continue
+        # ... nor from a statement that is not inside the try this handler belongs to (the predecessor of the try's first statement)
+        if not any(any(hh_ is m.ast for hh_ in t_.handlers) for t_ in g.try_of.get(n, ())) and isinstance(m.ast, ast.ExceptHandler): continue
+        # ... nor from one whose value the walk has just computed completely from known values (`_ = seq[0]` with seq = ['a'])
+        if track and n.kind == 'stmt' and isinstance(n.ast, ast.Assign) and (isinstance(n.ast.value, (ast.Subscript, ast.Name, ast.Constant, ast.Compare, ast.BinOp)) or
+                                                                              (isinstance(n.ast.value, ast.Call) and isinstance(n.ast.value.func, ast.Name) and n.ast.value.func.id in ('list', 'tuple', 'set', 'len', 'sorted', 'dict') and not n.ast.value.keywords)):
+          try:
+            v_ = eval_env2(repo, module, n.ast.value, e, cls)
+            if v_ is not OPAQUE and not isinstance(v_, Rec): continue
+          except Exception: pass
         key = (n.id, m.id)
         if key in used: continue
         stack.append((m, path + (m,), e, used | {key}, loops))
